@@ -144,5 +144,54 @@ func corpus() []*Case {
 		}
 		out = append(out, b.done("refused transactions"))
 	}
+	// cached list thresholds (txList.costcap / gascap): a same-nonce replacement that costs
+	// more / uses more gas than anything the list has seen, then head events whose balance /
+	// block gas limit sits at the boundaries of the window [old threshold, new maximum]:
+	// pending (demoteUnexecutables) and queue (promoteExecutables), raise by price, value, gas.
+	for _, side := range []string{"pending", "queue"} {
+		n0 := uint64(0)
+		if side == "queue" {
+			n0 = 2
+		}
+		A := TxSpec{From: 0, Nonce: n0, Price: 10, Gas: 21000, Value: 1000}    // cost 211000: the list's threshold
+		B := TxSpec{From: 0, Nonce: n0 + 1, Price: 10, Gas: 21000, Value: 500} // cost 210500
+		oldCap := A.Cost().Uint64()
+		for _, raise := range []string{"price", "value", "gas"} {
+			R := B
+			switch raise {
+			case "price":
+				R.Price = 20
+			case "value":
+				R.Price, R.Value = 11, 500000
+			case "gas":
+				R.Price, R.Gas = 11, 50000
+			}
+			c := R.Cost().Uint64()
+			gasSt := func(bal, maxgas uint64) StateJS { s := st(1, 0, bal); s.MaxGas = maxgas; return s }
+			for variant := 0; variant < 2; variant++ {
+				b := newCB(wide, st(1, 0, 10000000))
+				b.add(false, A, B).add(false, R)
+				switch {
+				case raise != "gas" && variant == 0:
+					b.head(0, st(1, 0, c)).head(1, st(1, 0, c-1)).add(false, R)
+				case raise != "gas":
+					b.head(0, st(1, 0, oldCap)).head(1, st(1, 0, oldCap-1)).head(2, st(1, 0, rich)).add(false, R)
+				case variant == 0:
+					b.head(0, gasSt(10000000, R.Gas)).head(1, gasSt(10000000, R.Gas-1)).add(false, R)
+				default:
+					b.head(0, gasSt(10000000, 21000)).head(1, gasSt(10000000, 20999)).head(2, gasSt(10000000, 5000000)).add(false, R)
+				}
+				out = append(out, b.done("list thresholds after a "+raise+"-raising replacement ("+side+")"))
+			}
+		}
+	}
+	// the same through a mined earlier nonce: the balance falls between the cost of the
+	// replaced transaction and the cost of its replacement
+	{
+		b := newCB(wide, st(1, 0, 10000000))
+		T0, T1, T1b := txv(0, 0, 10, 4000000), txv(0, 1, 10, 3000000), txv(0, 1, 20, 6000000)
+		b.add(false, T0, T1).add(false, T1b).head(0, st(1, 1, 10000000-4210000), T0)
+		out = append(out, b.done("replacement unaffordable after the earlier nonce is mined"))
+	}
 	return out
 }
